@@ -64,6 +64,7 @@ let run_case ~(v0 : bool) (c : case) =
     | ["vec"; e; c; d] -> h.shape <- ((nn e, c = "1"), d = "1") :: h.shape
     | "fail" :: os -> h.fails <- L.map ni os
     | ["failfrom"; n] -> h.from <- Some (ni n)
+    | "atdiscard" :: _ -> () (* the driver discards the address an out-of-range at() would return: same abort *)
     | "samecb" :: _ -> ()    (* the driver uses one function as constructor and destructor: same calls *)
     | _ ->
       (match parse_op w with
